@@ -493,6 +493,100 @@ Example C14_inner_whole_nonvacuous :
 Proof. vm_compute. repeat split. discriminate. Qed.
 Local Close Scope N_scope.
 
+(* ---- the umbrella: every case of the modelled domain — Node and BinaryNode trees, root and inner start
+   nodes, prune_tree (any path list, str or list, exact on/off, every depth limit) and get_subtree, every
+   tree separator of positive length.  Guards (`case_ok`): the start position exists; the paths satisfy
+   `paths_ok` / `strip_ok` (C14_paths_ok_one_char, C14_paths_ok_wellformed, C14_paths_ok_of_rendered); for
+   BinaryNode trees the encoding invariant `wf2` (an empty slot is HOLE, a real node has two slots — what
+   the harness emits).  Inside prop_C14_at: ambiguous paths and nested targets make no claim. ---- *)
+
+Theorem C14_umbrella : forall bin tsep t st call,
+  case_ok bin tsep t st call ->
+  prop_C14_at bin tsep t st call (obs_of (run_call_at bin tsep t st call)) = true /\
+  prop_C14_top call (obs_of (run_call_at bin tsep t st call)) (top_depth st call) = true.
+Proof. exact umbrella_C14. Qed.
+Print Assumptions C14_umbrella.
+
+(* the BinaryNode family on its own: prune_tree on root and inner nodes, get_subtree (addressed node and
+   descendants to the given depth as a new root, every slot where it was, empty-slot markers included) *)
+Theorem C14_model_satisfies_prop_binary : forall tsep t st s0 call,
+  wf2 t = true -> subtree_at t st = Some s0 -> tsep <> [] -> call_ok_g tsep call ->
+  prop_C14_at true tsep t st call (obs_of (run_call_at true tsep t st call)) = true.
+Proof. exact model_satisfies_C14_bin. Qed.
+Print Assumptions C14_model_satisfies_prop_binary.
+
+Theorem C14_binary_get_subtree : forall tsep t st s0 s d,
+  wf2 t = true -> subtree_at t st = Some s0 -> tsep <> [] -> strip_ok tsep s ->
+  prop_C14_at true tsep t st (CSubtree s d) (obs_of (get_subtree_at true tsep t st s d)) = true.
+Proof. exact get_subtree_at_bin_satisfies. Qed.
+Print Assumptions C14_binary_get_subtree.
+
+Theorem C14_binary_inner_prune : forall tsep t st s0 pp exact sep d,
+  wf2 t = true -> subtree_at t st = Some s0 -> tsep <> [] -> sep <> [] -> paths_ok tsep sep (norm_paths pp) ->
+  prop_C14_at true tsep t st (CPrune pp exact sep d) (obs_of (prune_tree_at true tsep t st pp exact sep d)) = true.
+Proof. exact prune_tree_at_bin_satisfies. Qed.
+Print Assumptions C14_binary_inner_prune.
+
+(* the observation of the BinaryNode surgery, markers included; the depth cut is the same surgery *)
+Theorem C14_binary_observation : forall t alive,
+  wf2 t = true -> obs_tree (filter_tree_b alive t) = selb_gen true (survive alive) t.
+Proof. exact obs_filter_b. Qed.
+Print Assumptions C14_binary_observation.
+
+Theorem C14_binary_depth_cut_is_surgery : forall d t,
+  wf2 t = true -> depth_cut_x true d t = filter_tree_b (fun p => within_depth d (S (length p))) t.
+Proof. exact depth_cut_x_true_filter. Qed.
+Print Assumptions C14_binary_depth_cut_is_surgery.
+
+Local Open Scope N_scope.
+(* BinaryNode tree 1(2(-,4(6,-)), 3(5,-)), called on node 2: prune to "4" exact; get_subtree "4" depth 1 *)
+Example C14_umbrella_nonvacuous :
+  let t := T None [49] [] [T None [50] [] [HOLE; T None [52] [] [T None [54] [] [HOLE; HOLE]; HOLE]];
+                           T None [51] [] [T None [53] [] [HOLE; HOLE]; HOLE]] in
+  case_ok true [47] t [0]%nat (CPrune (PStr [52]) true [47] 0%nat)
+  /\ obs_of (run_call_at true [47] t [0]%nat (CPrune (PStr [52]) true [47] 0%nat))
+     = OTree [(1%nat, [50], []); (2%nat, [], []); (2%nat, [52], []); (3%nat, [], []); (3%nat, [], [])]
+  /\ obs_of (run_call_at true [47] t [0]%nat (CSubtree [52] 1%nat))
+     = OTree [(1%nat, [52], []); (2%nat, [], []); (2%nat, [], [])].
+Proof.
+  cbv zeta. split; [|split; vm_compute; reflexivity].
+  split; [eexists; reflexivity|]. split; [discriminate|]. split; [|intros _; vm_compute; reflexivity].
+  split; [discriminate|]. apply paths_ok_single.
+Qed.
+Local Close Scope N_scope.
+
+(* ---- inner start node with a depth limit: the whole copy the returned node stays attached to.  It is
+   `whole_expect`: kept by the path rule (if paths were given) and, below the start node only, within
+   max_depth levels counted from the start node; above and beside the start node the depth limit changes
+   nothing; below it the whole copy shows exactly the returned subtree.  `whole_copy_at` is compared with
+   result.root on every inner-node prune_tree call of the correspondence run. ---- *)
+
+Theorem C14_inner_whole_copy_depth : forall given N exact st d t,
+  (given = true -> N <> [] /\ nested N = false) ->
+  obs_tree (whole_copy_at given N exact st d t) = sel (whole_expect given N exact st d) t.
+Proof. exact whole_copy_obs. Qed.
+Print Assumptions C14_inner_whole_copy_depth.
+
+Theorem C14_inner_whole_copy_above_below : forall given N exact st d t s,
+  subtree_at t st = Some s ->
+  (given = true -> N <> [] /\ nested N = false /\ (forall q, In q N -> prefix st q)) ->
+  (forall p, prefixb st p = false -> whole_expect given N exact st d p = (negb given || keep N exact p)) /\
+  sel (fun p => prefixb st p && whole_expect given N exact st d p) t =
+  map (lbl_add (length st))
+      (obs_tree (depth_cut_x false d (if given then prune_paths_at false N exact st (copy_tree s) else copy_tree s))).
+Proof. exact whole_copy_above_below. Qed.
+Print Assumptions C14_inner_whole_copy_above_below.
+
+Local Open Scope N_scope.
+(* r(a(c(e), d), b), prune_tree(a, max_depth=2): the whole copy is r(a(c, d), b) — b stays, e goes *)
+Example C14_inner_whole_depth_nonvacuous :
+  let t := T None [114] [] [T None [97] [] [T None [99] [] [T None [101] [] []]; T None [100] [] []];
+                            T None [98] [] []] in
+  obs_tree (whole_copy_at false [] false [0]%nat 2%nat t)
+  = [(1%nat, [114], []); (2%nat, [97], []); (3%nat, [99], []); (3%nat, [100], []); (2%nat, [98], [])].
+Proof. vm_compute. reflexivity. Qed.
+Local Close Scope N_scope.
+
 (* K3 (known finding): with the two-character separator "->" the faithful model — like the code —
    looks "r->a-" up as "r->a" (rstrip strips the character set {'-','>'}) and keeps the wrong node. *)
 Example C14_multichar_sep_refuted :
